@@ -284,7 +284,7 @@ type world struct {
 
 func caseKey(u *unitCase) string {
 	h := sha256.Sum256(u.Doc.Body)
-	return fmt.Sprintf("%s|%x|%s|%s|%v|%v|%v|%s|%d", u.Kind, h[:8], u.Doc.CT, u.Set.name(), u.ChunkLen, u.EOFLast, u.Pattern, u.BufMode, u.FailAt)
+	return fmt.Sprintf("%s|%x|%s|%s|%v|%v|%v|%s|%d|%s|%v", u.Kind, h[:8], u.Doc.CT, u.Set.name(), u.ChunkLen, u.EOFLast, u.Pattern, u.BufMode, u.FailAt, u.Stack, u.HighLevel)
 }
 
 // eval drives the real code on u, judges it and (toCoq) emits the observation for the model.
@@ -296,9 +296,13 @@ func (w *world) eval(u *unitCase, toCoq bool) (string, obs) {
 	var o obs
 	if u.Kind == "e2e" {
 		o = driveE2E(u)
+		if o.Fatal == "" && !bytes.Equal(bytes.Join(o.NetSeen, nil), u.Doc.Body) {
+			o.Fatal = "transport delivered other bytes than the origin served (not a C15 matter)"
+		}
 		if o.Fatal == "" {
 			// the model is fed with the network reads as they really happened underneath the decoder
 			u.Chunks = o.NetSeen
+			u.EOFLast = o.NetEOFLast
 			u.ChunkLen = u.ChunkLen[:0]
 			for _, c := range u.Chunks {
 				u.ChunkLen = append(u.ChunkLen, len(c))
@@ -315,6 +319,12 @@ func (w *world) eval(u *unitCase, toCoq bool) (string, obs) {
 	al, active, _ := allowedResults(u)
 	nontrivial := hasNonASCII(u.Doc.Body) && (len(al) > 1 || !active || u.Doc.HdrCS != "")
 	r.Count("kind:" + u.Kind)
+	if u.Kind == "e2e" {
+		r.Count("e2e:" + u.Stack)
+		if u.HighLevel {
+			r.Count("e2e:highlevel")
+		}
+	}
 	r.Count("site:" + string(u.Doc.Site))
 	r.Count("charset:" + u.Doc.Charset)
 	r.Count("result:" + strings.SplitN(class, ":", 2)[0])
@@ -323,7 +333,7 @@ func (w *world) eval(u *unitCase, toCoq bool) (string, obs) {
 	r.Count(fmt.Sprintf("chunks:%d", min(len(u.Chunks), 5)))
 	r.Count("buf:" + u.BufMode)
 	c := hk.Case{Desc: map[string]interface{}{"kind": u.Kind, "case": u, "obs": o, "class": class, "body_hex": hexCap(u.Doc.Body, 200)}}
-	if toCoq && o.Fatal == "" && u.FailAt < 0 && o.EndErr == "EOF" && w.coqText < w.coqCap {
+	if toCoq && !u.HighLevel && o.Fatal == "" && u.FailAt < 0 && o.EndErr == "EOF" && w.coqText < w.coqCap {
 		t := buildTables(u)
 		// hypothesis instance check: streaming over this split == one-shot on the whole body (x/text)
 		for n, s := range t.Stream {
